@@ -192,7 +192,11 @@ Proof.
 Qed.
 
 Corollary load_delimited_raises sc c s e : load_delimited sc c s = Err e -> e <> EFuel.
-Proof. intros H ->. apply (load_nofuel sc (S (length s)) (new sc c) s (Some SIZE_DELIMITED) ltac:(lia)). exact H. Qed.
+Proof.
+  unfold load_delimited. intros H ->. revert H.
+  generalize (Some SIZE_DELIMITED). intros size H.
+  exact (load_nofuel sc (S (length s)) (new sc c) s size ltac:(lia) H).
+Qed.
 
 Corollary parse_raises sc c bs e : parse sc c bs = Err e -> e <> EFuel.
 Proof.
@@ -200,4 +204,14 @@ Proof.
   destruct (load (S (length bs)) sc (new sc c) bs None) as [[o' r]|e] eqn:L; [discriminate|].
   cbn [bind] in H. injection H as ->.
   apply (load_nofuel sc (S (length bs)) (new sc c) bs None ltac:(lia)). exact L.
+Qed.
+
+From BP Require Import Model.C10Stream.
+
+Lemma loads_raises sc : forall cs s l e, loads sc cs s = (l, Err e) -> e <> EFuel.
+Proof.
+  induction cs as [|c cs IH]; intros s l e H; cbn [loads] in H; [discriminate|].
+  destruct (load_delimited sc c s) as [[m s']|e'] eqn:L.
+  - destruct (loads sc cs s') as [l' r] eqn:R. injection H as _ ->. apply (IH _ _ _ R).
+  - injection H as _ <-. apply (load_delimited_raises _ _ _ _ L).
 Qed.
